@@ -162,6 +162,11 @@ def run(R):
                 return full_text(en, ds[0])
         return full_text(en, e_)
     hashed = listed(loops[0].ast.iter) if loops else (listed(upd[0].args[0]) if upd else '?')
+    if not upd:
+        # one-shot form `sha256(block).digest()`: the constructor argument is the (single) hashed block
+        ctor = [c for (n, c) in calls_in_ctx(en) if ast.unparse(c.func).rsplit('.', 1)[-1] == 'sha256' and len(c.args) == 1 and not c.keywords]
+        if len(ctor) == 1:
+            hashed = '[' + full_text(en, ctor[0].args[0]) + ']'
     enc = "super().encode(wire, offset, markers)"
     want = (f'[memoryview({enc})[self._digest_cover_start.get_arg(markers):self._digest_cover_end.get_arg(markers) - self._shrink_len.get_arg(markers)]]')
     if 'self._digest_cover_end.get_arg(markers) - self._shrink_len.get_arg(markers)' not in hashed:
